@@ -182,6 +182,8 @@ type FnCtx struct {
 	specMode   *SpecFunc
 	entryMeasure []string
 	regexUsed  map[string]bool
+	declSet    map[string]bool
+	declSetN   int
 }
 
 // nameScope resolves identifiers of a contract clause.
@@ -220,7 +222,13 @@ func (ns *nameScope) thePkg() *packages.Package {
 }
 
 func (fc *FnCtx) errorf(format string, a ...interface{}) {
-	fc.errors = append(fc.errors, fmt.Sprintf(format, a...))
+	m := fmt.Sprintf(format, a...)
+	for _, e := range fc.errors {
+		if e == m {
+			return
+		}
+	}
+	fc.errors = append(fc.errors, m)
 }
 
 func (fc *FnCtx) pos(n ast.Node) string {
